@@ -361,6 +361,19 @@ def hContract : Handler := handler fun args =>
   | _ => none
 
 open Dask.Contraction in
+/-- `(blocksumover ((chunks of contracted index 0…)…) (T…))`: `T` = the products over the contracted index space in C order;
+    ↦ `(blockSumOver, sumOver)` -/
+def hBlockSumOver : Handler := handler fun args =>
+  match args with
+  | [css, t] => do
+    let css ← css.toNatss?
+    let t ← t.toInts?
+    let dims := css.map fun cs => cs.foldl (· + ·) 0
+    let f := fun (ix : List Nat) => t.getD (Dask.ArrayReduce.ravel dims ix) 0
+    pure (.list [.int (blockSumOver css f), .int (sumOver dims f)])
+  | _ => none
+
+open Dask.Contraction in
 /-- `(stackgroups (chunks…) cc crmax)` ↦ `(((idx m_r)…)…)` -/
 def hStackGroups : Handler := handler fun args =>
   match args with
@@ -436,7 +449,7 @@ def table : List (String × Handler) := [
   ("mafilled", ReduceDriver.hMaFilled), ("mawhere", ReduceDriver.hMaWhere), ("mainside", ReduceDriver.hMaInside),
   ("rngcalls", ReduceDriver.hRngCalls), ("rscalls", ReduceDriver.hRsCalls), ("choiceguard", ReduceDriver.hChoiceGuard),
   ("rnghist", ReduceDriver.hRngHist), ("rshist", ReduceDriver.hRsHist),
-  ("contract", ReduceDriver.hContract), ("stackgroups", ReduceDriver.hStackGroups), ("cumsumblocks", ReduceDriver.hCumsumBlocks),
+  ("contract", ReduceDriver.hContract), ("blocksumover", ReduceDriver.hBlockSumOver), ("stackgroups", ReduceDriver.hStackGroups), ("cumsumblocks", ReduceDriver.hCumsumBlocks),
   ("aeeval", ReduceDriver.hAeEval), ("aestep", ReduceDriver.hAeStep)]
 
 def main : IO Unit := runDriver table
